@@ -13,16 +13,18 @@ def com(arr, mask=None):
     """Intensity-weighted mean detector coordinate of every pattern of `arr` (..., H, W).
     Returns (com_row, com_col), each of shape arr.shape[:-2], in float64.  With `mask` (H, W) the
     weights are arr * mask."""
-    A = np.asarray(arr, dtype=np.float64)
+    A = np.asarray(arr)
     if mask is not None:
-        A = A * np.asarray(mask, dtype=np.float64)
+        A = A.astype(np.float64) * np.asarray(mask, dtype=np.float64)
     H, W = A.shape[-2:]
     rows = np.arange(H, dtype=np.float64)
     cols = np.arange(W, dtype=np.float64)
-    total = A.sum(axis=(-2, -1))
+    # float64 accumulation of the stored values (dtype=float64 converts each element exactly before it
+    # is added; no float64 copy of a large dataset is made)
     # marginals first: sum over the *other* axis, then weight (keeps rows/cols impossible to confuse)
-    row_marginal = A.sum(axis=-1)  # (..., H)
-    col_marginal = A.sum(axis=-2)  # (..., W)
+    row_marginal = A.sum(axis=-1, dtype=np.float64)  # (..., H)
+    col_marginal = A.sum(axis=-2, dtype=np.float64)  # (..., W)
+    total = row_marginal.sum(axis=-1)
     com_r = (row_marginal * rows).sum(axis=-1) / total
     com_c = (col_marginal * cols).sum(axis=-1) / total
     return com_r, com_c
